@@ -50,9 +50,10 @@ PROPS = {
                                'request (multiset of documents), plus spec_c14 evaluated on the implementation\'s observation.',
                     level_note='PARTIAL: (1) batch-max-wait-ms as wall-clock time is only measured coarsely by the harness; the theorems use a logical timer. '
                                '(2) Whole-request errors: exactly-one-answer is proved for every script (C14_answered_once_any_script), the closed form of WHICH '
-                               'answer (C14_answered_once) assumes none; both kinds are compared with the code in the thorough tier. (3) The equivalence of the '
-                               'scheduled pool machine with the schedule-free semantics es_run is not proved; both share handle/bstep, C14_pool is about the '
-                               'machine, and the real concurrent code is compared with es_run on every case. (4) Requests in flight at Shutdown are still completed '
+                               'answer (C14_answered_once) assumes none; both kinds are compared with the code in the thorough tier. (3) Interleavings: the scheduled '
+                               'machine (arrivals, timer, Shutdown, acquire/respond/release) is proved to reach the multiset of answers and bulk requests of the '
+                               'schedule-free semantics es_run on every complete schedule (C14_schedule_independent); that the Go runtime realises that machine is '
+                               'modelled, not verified. (4) Requests in flight at Shutdown are still completed '
                                'by their goroutines in the harness process; only the pending-batch half of F7 is observed. PROVED for the model: C14_spec_model - on '
                                'every scenario of the quantifier the decision procedure fails, on the model\'s own observation, exactly clause 6/detail 1 once per '
                                'request pending at Shutdown. Trusted: Coq kernel, extraction, harness incl. scripted bulk service and its decoding of request '
